@@ -1,14 +1,14 @@
 INIT GenInit
-NEXT GenNextSim
+NEXT GenNext
 CONSTANTS
   Program <- GenProgram
-  Role = "client"
+  Role = "server"
   WBuf = 256
-  Shapes <- S_nwMp_wmS
-  Ctl <- C_ping
+  Shapes <- S_wmL_wmS
+  Ctl <- C_ping_pong
   Closer = TRUE
-  Rd <- R_pongD_pong
-  Fault <- F_none
+  Rd <- R_none
+  Fault <- F_D1extra0_e
   ControlTakesLock = TRUE
   FlushAtomic = TRUE
   LatchChecked = TRUE
@@ -18,6 +18,6 @@ CONSTANTS
   TimeoutFaultLatches = TRUE
   Fifo = TRUE
   OnlyBad = FALSE
-  Family = "simrclient"
+  Family = "flt_extra"
 INVARIANT Emit
 CHECK_DEADLOCK FALSE
